@@ -169,7 +169,7 @@ package res
 //@
 //@ func (r *Request) reply(payload []byte)
 //@   requires reqOK(r)
-//@   modifies res.Request.replied, ghost.rcount, ghost.pubn, alloc, ghost.errenc, ghost.errlast
+//@   modifies res.Request.replied, ghost.rcount, ghost.pubn, alloc
 //@   ensures ok: !old(r.replied) && r.replied && rcount == store(old(rcount), ref(r), old(rcount[ref(r)]) + 1)
 //@   ensures_on_panic dup: old(r.replied) && r.replied && rcount == old(rcount) && pubn == old(pubn)
 //@   ghost call Conn.Publish#1 before :: assert arg_subject == r.msg.Reply
